@@ -16,8 +16,8 @@ use crate::handlers;
 
 pub struct Controller {
     handlers: Vec<Box<dyn handlers::Processor>>,
-    job_sockets: Option<(OwnedFd, OwnedFd)>,
-    result_sockets: (OwnedFd, OwnedFd),
+    job_socket: Option<OwnedFd>,
+    result_socket: OwnedFd,
     workers: Vec<process::Child>,
 }
 
@@ -140,10 +140,16 @@ impl Controller {
             workers.push(child);
         }
 
+        // Keep only our ends of the socket pairs. The workers' ends must be
+        // closed here, otherwise a write to a full job queue blocks forever
+        // when all workers have died.
+        let (_, job_socket) = job_sockets;
+        let (_, result_socket) = result_sockets;
+
         Ok(Controller {
             handlers,
-            job_sockets: Some(job_sockets),
-            result_sockets,
+            job_socket: Some(job_socket),
+            result_socket,
             workers,
         })
     }
@@ -160,7 +166,7 @@ impl Controller {
         let buf = serde_cbor::ser::to_vec_packed(&job)?;
 
         debug!("Sending {:?} ({} bytes)", &job, buf.len());
-        unistd::write(&self.job_sockets.as_ref().unwrap().1, &buf)?;
+        unistd::write(self.job_socket.as_ref().unwrap(), &buf)?;
 
         Ok(())
     }
@@ -168,11 +174,11 @@ impl Controller {
     pub fn close(&mut self) -> Result<()> {
         debug!("Sending quit command to children…");
         for _ in &mut self.workers {
-            unistd::write(&self.job_sockets.as_ref().unwrap().1, b"")?;
+            unistd::write(self.job_socket.as_ref().unwrap(), b"")?;
         }
 
         debug!("Closing control socket…");
-        self.job_sockets.take();
+        self.job_socket.take();
 
         debug!("Waiting for children to exit…");
         for child in &mut self.workers {
@@ -198,7 +204,7 @@ impl Controller {
         let mut buf = vec![0; 1024];
 
         loop {
-            let n = match unistd::read(self.result_sockets.1.as_raw_fd(), &mut buf) {
+            let n = match unistd::read(self.result_socket.as_raw_fd(), &mut buf) {
                 Err(e) => {
                     if e == errno::Errno::EAGAIN {
                         break;
